@@ -266,7 +266,7 @@ def obligations(tier):
 
     def ob(kind, op, covers, **size):
         u = universe(KINDS[kind][2])
-        out.append(Ob("%s/%s" % (kind, op), h, dict(kind=kind, op=op, **size), budget=240 if quick else 3000, covers=covers,
+        out.append(Ob("%s/%s" % (kind, op), h, dict(kind=kind, op=op, **size), budget=600 if quick else 3000, covers=covers,
                       max_fail_keys=40,
                       bounds=dict(current_registry_universe=u[:size.get("ncur", 4)], explicit_names=u[:size.get("ncur", 4)] + ["z"],
                                   other_registry_universe=u[:size.get("nother", 4)] if "switch" in op else None,
